@@ -1078,7 +1078,7 @@ def register(I):
                                         raise Unsupported("symbolic filter_map result")
                                     step.append((s1, out + [r.fields[0]] if r.variant == "Some" else out))
                         partial = step
-                        if len(partial) > 256:
+                        if len(partial) > 6000:
                             raise Unsupported("too many paths inside an iterator adaptor")
                     nxt_paths.extend(partial)
                 paths = nxt_paths
